@@ -182,6 +182,17 @@ class Intrinsics:
                     return SInt(ta + tb)
                 if ex.prove_now(z3.And(tb % m == 0, ta >= 0, ta < m)):
                     return SInt(ta + tb)
+            # exact fallback for provably small non-negative operands: through bit-vectors
+            for bits in (8, 16, 24):
+                lim = _pow2(bits)
+                if ex.prove_now(z3.And(ta >= 0, ta < lim, tb >= 0, tb < lim)):
+                    self.use("a | b on small non-negative ints by bit decomposition with div/mod by constants (exact)")
+                    acc = z3.IntVal(0)
+                    for i in range(bits):
+                        ba = (ta / _pow2(i)) % 2
+                        bb = (tb / _pow2(i)) % 2
+                        acc = acc + z3.If(z3.Or(ba == 1, bb == 1), _pow2(i), 0)
+                    return SInt(acc)
             raise Unsupported("| without provable disjoint bit ranges")
         if isinstance(op, ast.Pow):
             if isinstance(b, int) and 0 <= b <= 8:
@@ -483,7 +494,19 @@ class Intrinsics:
                 t = ex.to_str_term(obj)
                 ln = z3.Length(t)
                 l, h = self.slice_bounds(lo, hi, ln)
-                return SStr(z3.SubSeq(t, l, z3.If(h - l > 0, h - l, 0)))
+                r = z3.SubSeq(t, l, z3.If(h - l > 0, h - l, 0))
+                # constant-width slices: the (valid) element-wise facts the sequence solver does not find alone
+                if lo is not None and hi is not None and not ex.pure:
+                    lt, ht = ex.to_int_term(lo), ex.to_int_term(hi)
+                    w = z3.simplify(ht - lt)
+                    if z3.is_int_value(w) and 1 <= w.as_long() <= 12:
+                        k = w.as_long()
+                        key = ("slice-facts", r.sexpr())
+                        if key not in ex.facts_seen:
+                            ex.facts_seen.add(key)
+                            ex.assume(z3.Implies(z3.And(lt >= 0, ht <= ln),
+                                                 z3.And(z3.Length(r) == k, *[r[i] == t[lt + i] for i in range(k)])))
+                return SStr(r)
             seq = ex.as_symbolic_seq(obj)
             if seq is not None:
                 ln = z3.Length(seq.t)
